@@ -158,7 +158,7 @@ func mapperRun(args []string) error {
 					log = append(log, fmt.Sprintf("%d@%d", id, t.Pos.Offset+1))
 				}
 				return t, nil
-			}, selTypes[s]...))
+			}, allSel(selTypes[s], i)...))
 		}
 		parser, err := participle.Build[mGrammar](opts...)
 		if err != nil {
@@ -194,7 +194,7 @@ func mapperRun(args []string) error {
 						log = append(log, fmt.Sprintf("%d@%d", id, t.Pos.Offset/2+1))
 					}
 					return t, nil
-				}, tsel[s]...))
+				}, allSel(tsel[s], i)...))
 			}
 			tparser, err := participle.Build[mTextGrammar](topts...)
 			if err != nil {
@@ -205,7 +205,7 @@ func mapperRun(args []string) error {
 			check("text/scanner Lex", func() error { _, err := tparser.Lex("", strings.NewReader(tinput)); return err })
 		}
 		// Upper on the first selection: exactly the selected types are upper-cased, positions untouched
-		up, err := participle.Build[mGrammar](participle.Lexer(mLexer), participle.Elide("C"), participle.Upper(selTypes[sels[0]]...))
+		up, err := participle.Build[mGrammar](participle.Lexer(mLexer), participle.Elide("C"), participle.Upper(allSel(selTypes[sels[0]], len(sels))...))
 		if err != nil {
 			return err
 		}
@@ -295,4 +295,13 @@ func mapperRun(args []string) error {
 	}
 	fmt.Fprintf(w, "DONE\t%d\t%d\n", n, bad)
 	return nil
+}
+
+// allSel: "every token" is an empty selection, however the caller spells it: no arguments at all, or an empty slice spread into
+// the variadic parameter (every other mapper gets the second spelling)
+func allSel(sel []string, i int) []string {
+	if len(sel) == 0 && i%2 == 1 {
+		return []string{}
+	}
+	return sel
 }
